@@ -54,6 +54,37 @@ def _bumptok(field, idx):
     return fn
 
 
+def _dropfield(fields):
+    def fn(e):
+        if e.get('op') == 'decode':
+            return None
+        for f in fields:
+            if e.get(f):
+                e[f] = e[f][1:]
+                return e
+        return None
+    return fn
+
+
+def _flip(field):
+    def fn(e):
+        if isinstance(e.get(field), bool):
+            e[field] = not e[field]
+            return e
+        return None
+    return fn
+
+
+def _bumplist(field, idx):
+    def fn(e):
+        v = e.get(field)
+        if isinstance(v, list) and len(v) > idx and isinstance(v[idx], int):
+            v[idx] += 1
+            return e
+        return None
+    return fn
+
+
 PROPS = {
     'C11': dict(
         tv=dict(module='ScannerTrace', cfg='ScannerTrace.cfg'),
@@ -91,6 +122,18 @@ PROPS = {
         tv=dict(module='TokenStreamTrace', cfg='TokenStreamTrace.C12.cfg'),
         mc=[],
         corrupt=[('column of an output token + 1', _bumptok('out', 3))],
+        exhaustive_part=True,
+    ),
+    'C14': dict(
+        tv=dict(module='QuoteCodecTrace', cfg='QuoteCodecTrace.cfg'),
+        mc=[dict(module='QuoteCodecMC', cfg={'quick': 'QuoteCodecMC.quick.cfg', 'thorough': 'QuoteCodecMC.thorough.cfg'})],
+        corrupt=[('drop a character of dec/decoded', _dropfield(['dec', 'decoded']))],
+        exhaustive_part=True,
+    ),
+    'C05': dict(
+        tv=dict(module='TokenIteratorTrace', cfg='TokenIteratorTrace.cfg'),
+        mc=[dict(module='TokenIteratorMC', cfg='TokenIteratorMC.cfg')],
+        corrupt=[('flip has-next answer', _flip('ret')), ('token type + 1', _bumplist('tok', 0))],
         exhaustive_part=True,
     ),
 }
@@ -158,5 +201,16 @@ DOC = {
         note='Trusted: TLC, Json module, recorder. Cases whose option-free stream is not lossless (C04) or not alignable (C15) are not '
              'judged here. Positions inside error messages are not checked.',
         technique='TLA+ predicate spec (TokenStream.PositionFails over ScanLC.LC) + TLC trace validation over option sets x inputs',
+    ),
+    'C14': dict(
+        level='QuoteCodec.tla defines Encode/Decode of the generic and the doubled-quote (expression, CSV) states and ReadQuoted; '
+              'QuoteCodecMC.tla model-checks the three laws (round trip, totality, read-back of an encoding followed by a tail) for '
+              'every string up to the bound over {both quotes, ASCII, 2-, 3- and 4-byte characters, space, LF}. The three real quote '
+              'states are driven over the same strings exhaustively and random Unicode beyond; QuoteCodecTrace.tla checks '
+              'decode(encode(s)) = s, that DecodeString returns on arbitrary raw text, and that the real expression / CSV tokenizer reads '
+              'encode(s) followed by a tail as exactly one token whose decoded value is s.',
+        note='Trusted: TLC, Json module, recorder. The exact encoded text is not prescribed (difference from QuoteCodec.Encode is printed '
+             'as SPEC-DRIFT only).',
+        technique='TLA+ codec spec + TLC model checking of the codec laws (QuoteCodecMC) + TLC trace validation of the real quote states and tokenizers',
     ),
 }
